@@ -164,6 +164,11 @@ def run(ctx):
         got = {k: jd.get(k) for k in exp}
         desc = f"form_name={form_name} fallback={fallback} settings={sorted(settings)} default_language_arg={arg_lang}"
         r3.check(got == exp and all(jd.get(k) == v for k, v in settings.items()) and jd.get("children") == [], f"json root[{desc}]", f"== {exp}", w2j.loc(), why_fail=repr(got))
+        # the language under which unsuffixed cells are grouped (the local handed to every sheet's header pass) is the
+        # very language the Survey later treats as default: two different resolutions file the default texts under a
+        # language the itext block does not mark as default
+        r3.check(env.get("default_language") == exp["default_language"], f"grouping language[{desc}]", f"unsuffixed cells are grouped under {exp['default_language']!r}, the survey's default language",
+                 w2j.loc(), why_fail=f"local default_language = {env.get('default_language')!r}")
     # fallback form name plumbing
     gdd = ctx.func("pyxform.xls2json_backends:get_definition_data", "C11.R3")
     stem = [x for x in walk_own(gdd.node) if isinstance(x, ast.Assign) and isinstance(x.targets[0], ast.Name) and x.targets[0].id == "file_path_stem" and "stem" in norm(x.value)]
